@@ -405,8 +405,11 @@ Example image_signal_escapes :
   let s := world_get w 0 in
   rctx s = false ∧ last_len s = Some 1 ∧ mem 2 s = true ∧ mem 3 s = true ∧
   fst (image 2 3 true [] true [] false s) = Err ENeedsReordering ∧
-  snd (step w 0 (OImage 2 3 true [] true [] false)) = Err ENeedsReordering ∧
-  snd (step w 0 (OPreimage 2 3 true [] true [] false)) = Err ENeedsReordering.
+  (* the public entry points run with requests disabled (repaired in dd): they
+     succeed and restore the threshold *)
+  match snd (step w 0 (OImage 2 3 true [] true [] false)) with Ok _ => true | Err _ => false end = true ∧
+  match snd (step w 0 (OPreimage 2 3 true [] true [] false)) with Ok _ => true | Err _ => false end = true ∧
+  last_len (world_get (fst (step w 0 (OImage 2 3 true [] true [] false))) 0) = Some 1.
 Proof. by vm_compute. Qed.
 
 (** ** Counts: the nested decorated [ite], and [_quantify] *)
